@@ -74,9 +74,12 @@ impl Ctx {
 
 /// Run `n` items in child processes (`vmc item <prop> <tier> <idx>`), at most ctx.jobs at a time, visiting them in
 /// an order permuted by the seed (the set of items is always the same). Children print one ItemResult json as last line.
-pub fn run_pool(ctx: &Ctx, n: usize, budget_s: u64) -> ItemResult {
+pub fn run_pool(ctx: &Ctx, n: usize, budget_s: u64) -> ItemResult { run_pool_range(ctx, 0..n, budget_s) }
+
+pub fn run_pool_range(ctx: &Ctx, range: std::ops::Range<usize>, budget_s: u64) -> ItemResult {
     let exe = std::env::current_exe().expect("current_exe");
-    let mut order: Vec<usize> = (0..n).collect();
+    let n = range.len();
+    let mut order: Vec<usize> = range.collect();
     if ctx.seed != 0 && n > 1 {
         // rotation only: keeps smallest-first roughly intact while changing which shard sees what
         let k = (ctx.seed as usize) % n;
